@@ -184,6 +184,7 @@ func cmdCheck(args []string) {
 				Src: strings.Join(ws, "; "), Goal: TFalse, Result: "sat", Solver: "syntactic", Model: strings.Join(ws, "\n")})
 		}
 	}
+	all = append(all, w.wireObligations(prop)...)
 	dir := filepath.Join(outRoot, "out", prop)
 	os.RemoveAll(dir)
 	dischargeAll(w.x.U, all, dir, timeout, confirm, 10)
